@@ -18,7 +18,7 @@ RULE = ('Hypothesis-generated write histories (one list value: up to 400 writes 
         'every file must decompress to exactly its model content, no handle may be live, and a write may raise only '
         'if its last failed open attempt happened while no other handle was live. Part fastqhandle: the same through '
         'FastqHandle(single_cell=True). Non-trivial: an injected failure while >=2 handles were live followed by a '
-        'later write to a path that had been closed (append-mode reopen).')
+        'later write to a path that had been closed (append-mode reopen). Part bamsplit: the multi-pass split_bam_by_tag loop of bamSplitByTag.py for max_handles 1..n on small BAMs: the output files must partition the tagged records in input order (non-trivial: >=2 passes).')
 ASSUMPTIONS = ['faults occur at open() calls only (not at write/close)', 'payloads are text; gzip output is read back with the gzip module (multi-member)']
 
 
@@ -258,9 +258,84 @@ def eval_limiter(case, through_fastq=False):
     return out
 
 
+def bamsplit_strategy():
+    @st.composite
+    def case(draw):
+        nv = draw(st.integers(1, 12))
+        values = ['cell%d' % i for i in range(nv)]
+        if draw(st.booleans()) and nv > 2:
+            values[1] = 'lib A/7'      # needs cleaning to become a file name
+        n = draw(st.integers(1, 60))
+        recs = []
+        for i in range(n):
+            v = draw(st.integers(-1, nv - 1))
+            recs.append({'name': 'r%d' % i, 'flag': 0, 'tid': 0, 'pos': draw(st.integers(0, 900)), 'mapq': 60, 'cigar': '20M',
+                         'tags': ({'SM': values[v]} if v >= 0 else {})})
+        return {'records': recs, 'values': values, 'max_handles': draw(st.integers(1, nv + 1)), 'tag': 'SM'}
+    return case()
+
+
+def eval_bamsplit(case):
+    """the multi-pass loop of bamSplitByTag.py's main: outputs must partition the tagged records, in order"""
+    import io
+    import contextlib
+    import pysam
+    import singlecellmultiomics.bamProcessing.bamSplitByTag as bs
+    from singlecellmultiomics.utils.path import get_valid_filename
+    from ..common.bamsim import write_bam
+    from ..common.tagrun import DetPool
+    out = Outcome()
+    d = os.path.join(scratch_dir(), 'c19b_%d' % os.getpid())
+    shutil.rmtree(d, ignore_errors=True)
+    os.makedirs(os.path.join(d, 'out'))
+    saved = bs.Pool
+    bs.Pool = DetPool
+    try:
+        bam = os.path.join(d, 'in.bam')
+        write_bam(bam, [('chr1', 1000)], case['records'])
+        prefix = os.path.join(d, 'out') + '/'
+        skip = set()
+        waiting = set([0])
+        iterations = 0
+        try:
+            with contextlib.redirect_stdout(io.StringIO()):
+                while len(waiting) > 0 and iterations < 40:
+                    done, waiting = bs.split_bam_by_tag(bam, tag=case['tag'], output_prefix=prefix, head=None,
+                                                        max_handles=case['max_handles'], skip=skip)
+                    skip.update(done)
+                    iterations += 1
+        except Exception as e:
+            return out.bad('bamsplit:exception:%s' % type(e).__name__, repr(e))
+        if iterations >= 40:
+            out.bad('bamsplit:loop-does-not-terminate', 'max_handles %d values %d' % (case['max_handles'], len(case['values'])))
+        with pysam.AlignmentFile(bam) as f:
+            expected = {}
+            for r in f:
+                if r.has_tag(case['tag']):
+                    expected.setdefault(get_valid_filename(str(r.get_tag(case['tag']))), []).append(r.query_name)
+        got = {}
+        for fn in os.listdir(os.path.join(d, 'out')):
+            if fn.endswith('.bam'):
+                with pysam.AlignmentFile(os.path.join(d, 'out', fn)) as f:
+                    got[fn[:-4]] = [r.query_name for r in f]
+        if got != expected:
+            k = sorted(set(got) | set(expected), key=str)
+            bad = [x for x in k if got.get(x) != expected.get(x)][0]
+            g, e = got.get(bad), expected.get(bad)
+            kind = 'file-missing' if g is None else ('unexpected-file' if e is None else ('records-lost' if len(g) < len(e) else ('records-duplicated' if len(g) > len(e) else 'order')))
+            out.bad('bamsplit:%s' % kind, 'value %r: file has %r expected %r; max_handles %d, %d passes' % (bad, g, e, case['max_handles'], iterations))
+        out.nontrivial = iterations >= 2 and len(expected) >= 2
+        out.label('passes:%d' % iterations)
+    finally:
+        bs.Pool = saved
+        shutil.rmtree(d, ignore_errors=True)
+    return out
+
+
 def parts(tier):
     t = tier == 'thorough'
     return [
         Part('limiter', eval_limiter, strategy=lambda: history_strategy(200), examples=60000 if t else 3000),
         Part('fastqhandle', lambda c: eval_limiter(c, through_fastq=True), strategy=lambda: history_strategy(100), examples=20000 if t else 1000),
+        Part('bamsplit', eval_bamsplit, strategy=bamsplit_strategy, examples=6000 if t else 300),
     ]
